@@ -884,3 +884,45 @@ mod tests {
         assert_eq!(local_specs.len(), 1);
     }
 }
+
+/// Verification hooks (only with `--cfg mmtk_verif`): expose the crate-private overlap predicate and
+/// the spec-set sanity check to the harness. Nothing here changes the behaviour of the code above.
+#[cfg(mmtk_verif)]
+pub mod verif_hooks {
+    use super::*;
+
+    /// What `initialize_side_metadata` does for a binding without VM side specs: register the
+    /// (empty) VM layout and reserve the side-metadata range, so that
+    /// `global_side_metadata_base_address()` is usable. Call once per process.
+    pub fn verif_sanity_init() {
+        super::super::layout::set_vm_side_metadata_specs(&[]);
+        super::super::layout::initialize_side_metadata_base(
+            Address::ZERO,
+            crate::util::os::HugePageSupport::No,
+        );
+    }
+
+    /// The result of the private `verify_no_overlap_contiguous` (true = accepted, no overlap seen).
+    pub fn verif_no_overlap_contiguous(s1: &SideMetadataSpec, s2: &SideMetadataSpec) -> bool {
+        verify_no_overlap_contiguous(s1, s2).is_ok()
+    }
+
+    /// Runs `verify_metadata_context` for each (policy name, global specs, local specs) on a fresh
+    /// `SideMetadataSanity`, exactly as the spaces of one plan do. Panics where the real check panics.
+    /// A previous rejected run leaves the content map's lock poisoned (the check panics while
+    /// holding it); that is cleared first so that one process can try many spec sets.
+    pub fn verif_sanity_contexts(
+        ctxs: &[(&'static str, Vec<SideMetadataSpec>, Vec<SideMetadataSpec>)],
+    ) {
+        CONTENT_SANITY_MAP.clear_poison();
+        CONTENT_SANITY_MAP.write().unwrap().clear();
+        let mut sanity = SideMetadataSanity::new();
+        for (name, global, local) in ctxs {
+            let ctx = SideMetadataContext {
+                global: global.clone(),
+                local: local.clone(),
+            };
+            sanity.verify_metadata_context(name, &ctx);
+        }
+    }
+}
